@@ -77,6 +77,26 @@ CLAIMED = {
             'the truncation offsets of one file per synthetic set are enumerated (stratified sample in quick, all in thorough) incl. sfcf text files and '
             'json.gz / xml.gz / csv.gz archives; the Lean reader run on the same truncated bytes must agree on accept / reject and record count.',
             'Lean kernel; standard axioms; rwms 2.0 nested arrays and text layouts are covered by enumeration only; zlib / rapidjson / lxml / pandas rejection by contract.', '5 C18'),
+    'C11': ('Lean 4 theorems on the replica-table encode/decode (round trip for zero-mean chains, samples always restored) + schema regenerated from examples/json_schema.json and validated by a Lean validator cross-checked with jsonschema + deep round-trip comparison over all transports',
+            'Proof: the numerical core of the format - rows [config, delta_j + (r_j - value_j)] and the column-average decoding - is proved to restore '
+            'configuration numbers, every fluctuation and every replica mean for any number of observables and configurations (zero-mean chains), and the '
+            'per-configuration samples unconditionally. Every structure kind is written and re-read through strings, files (gz on/off, indent 0/1), dict files, '
+            'csv, sqlite and pickle and compared field by field; emitted and corrupted documents are validated against the shipped schema by the jsonschema '
+            'package and by the Lean validator over the regenerated schema, which must agree.',
+            'Lean kernel; standard axioms; rapidjson / gzip / pandas / sqlite3 / pickle containers and 17-digit float text conversion by contract; tr_schema translator.', '5 C11'),
+    'C12': ('Lean 4 model of the dobs replica table with the zero marker (theorems: zero-marked samples are dropped, subsets survive) + model/impl correspondence on surviving configurations + full round-trip comparison; one format-inherent known finding',
+            'Proof (partial): the table model with 0 = "not measured" is decided on exact witnesses: an observable on a subset of the merged configurations '
+            'comes back on that subset, and a measured sample whose written number is exactly 0 is dropped (the recorded known finding). The '
+            'implementation is compared with the model on which configurations survive, and every list of observables (different subsets, replicas, '
+            'ensembles, covariance inputs incl. cancelling gradients, count data with zeros, all separator modes, gz on/off, pobs) is compared field by field.',
+            'Lean kernel; lxml / gzip and %1.16e / %1.14e text conversion by contract; the general round-trip theorem is not proved (model covers one chain and one observable column).', '5 C12'),
+    'C13': ('Lean 4 theorems over the reals (leave-one-out, import inverts export, jackknife variance = naive variance, bootstrap means, linearity for a shared table) + exact rational model/impl correspondence + Fraction oracle',
+            'Proof: exported jackknife samples are the leave-one-out means with entry 0 the central value, import inverts export for every chain length >= 2, '
+            'the jackknife variance equals the squared naive error, exported bootstrap samples are the means over the table rows and the export is linear '
+            'for a shared table (chain consistency). The model runs in exact rational arithmetic on every generated case and is compared with pyerrors; '
+            'default name seeding (reproducible on repeated calls, consistent between observables of one chain) and the refusal of under-determined '
+            'imports are checked on the implementation.',
+            'Lean kernel; standard axioms; scipy lstsq in import_bootstrap and numpy default_rng by contract.', '5 C13'),
 }
 
 NOT_YET = {}
